@@ -256,12 +256,12 @@ CLAIMS = {
                  "characters; REPLACE with a non-empty needle satisfies the left-to-right scanning equations for strings of any length "
                  "(the model's fuel always suffices) and is the identity when the needle is absent; CONCAT/CONCAT_WS/COALESCE; decoding the "
                  "base64 encoding of any byte sequence returns it; the digits printed by BIN/HEX/OCT denote the argument (two's complement "
-                 "for negatives); ABS/LEAST/GREATEST; the value of F(G(x)) is F applied to the text of the value of G(x); every call yields a "
+                 "for negatives); ABS/LEAST/GREATEST; YEAR/MONTH/DAY of an argument that reads as a date whose first second is y-mo-d h:mi:s are y, mo, d for "
+                 "every valid civil date of every year, DAYOFWEEK its weekday (date_parts_spec, via civil_roundtrip), an argument that is no date gives an empty value; the value of F(G(x)) is F applied to the text of the value of G(x); every call yields a "
                  "value or a status-2 diagnostic. NOT theorems (external tables/libm/crates, compared with Python on every run): Unicode case "
                  "mapping of LOWER/UPPER/INITCAP (modelled for ASCII, Latin-1, Cyrillic), POWER/SQRT/LOG/LN/EXP beyond exact cases, "
-                 "FORMAT_TIME, the UTF-8 codec inside the base64 functions, and the binding of YEAR/MONTH/DAY/DOW to chrono (the civil-date "
-                 "algorithm itself is proved inverse in Lemmas/Civil.lean, see C13, and compared with Python's calendar for every day of "
-                 "1900..2100 in the thorough tier)."),
+                 "FORMAT_TIME, the UTF-8 codec inside the base64 functions, and that chrono computes the same civil date as the model's "
+                 "algorithm (compared with Python's calendar for every day of 1900..2100 in the thorough tier)."),
         "ref": "DESIGN.md §4 C16",
     },
     "C17": {
